@@ -334,5 +334,5 @@ for _p, _q, _t in [("C03", 2, 25), ("C05", 6, 25), ("C06", 3, 25), ("C08", 6, 25
 # Miri (pure-Rust paths only: these checks never call into C), thorough tier
 for _p, _s in [("C04", 1), ("C10", 1), ("C11", 1), ("C13", 1), ("C18", 1), ("C01", 1), ("C02", 1)]:
     _add_passes(_p, [
-        {"variant": "miri", "params": {"scale_pct": _s, "nojets": 1, "skip_subs": "depth-stress+nat-small-exhaustive+nat-decode-all+special-shapes"}, "env": MIRI_ENV, "tiers": ["thorough"], "budget_s": {"quick": 300, "thorough": 420}, "jobs": {"quick": 8, "thorough": 16}},
+        {"variant": "miri", "params": {"scale_pct": _s, "nojets": 1, "skip_subs": "depth-stress+nat-small-exhaustive+nat-decode-all+special-shapes+values-large+values-medium+offsets-enumerated+buffer-ctx8+history-pairs-medium+nat-random+nat-decode-random+all-shapes-7+all-shapes-8+random-larger-shapes+library-nodes+mutated-valid-encodings+random-bytes+random-dags"}, "env": MIRI_ENV, "tiers": ["thorough"], "budget_s": {"quick": 300, "thorough": 420}, "jobs": {"quick": 8, "thorough": 16}},
     ])
